@@ -298,6 +298,37 @@ CASES = {"shape": case_shape, "reduce": case_reduce, "api": case_api}
 SES = ["none", "false", 2, 3, 2, 3, 4]
 
 
+KINDS = ["sum", "prod", "min", "max", "mean", "var", "std", "sem", "count", "any", "all", "idxmin", "idxmax",
+         "nunique", "value_counts", "mode", "nlargest", "nsmallest", "describe", "cov", "corr", "len"]
+
+
+def gen_api(rng):
+    kinds = KINDS
+    n = rng.randint(1, 14)
+    kind = rng.choice(kinds)
+    uniq = kind in ("idxmin", "idxmax", "nlargest", "nsmallest") or rng.random() < 0.5
+    inp = {
+        "a": [rng.randint(-2, 4) for _ in range(n)],
+        "b": [None if rng.random() < 0.25 else rng.choice([1.5, -2.0, 0.0, 3.25, 2.0, 0.5]) for _ in range(n)],
+        "c": [None if rng.random() < 0.2 else float(rng.randint(-3, 3)) for _ in range(n)],
+        "g": [rng.random() < 0.6 for _ in range(n)],
+        "s": [rng.choice(["x", "y", "zz"]) for _ in range(n)],
+        "index": sorted(rng.sample(range(40), n)) if uniq else sorted(rng.randint(0, 6) for _ in range(n)),
+        "kind": kind, "se": rng.choice(SES), "lens": U.gen_lens(rng, n, rng.choice([4, 4, 9])),
+        "known": rng.random() < 0.7,
+        "column": rng.choice([None, "a", "b"]) if kind not in ("cov", "corr", "describe") else rng.choice([None, "b"]) if kind == "describe" else None,
+        "params": {"skipna": rng.random() < 0.75, "axis": 1 if rng.random() < 0.15 else 0, "ddof": rng.choice([1, 1, 0]),
+                   "numeric_only": True, "n": rng.randint(1, 4), "columns": rng.choice([["a"], ["b"], ["a", "b"]]),
+                   "boolcol": rng.random() < 0.5},
+        "with_str": rng.random() < 0.2,
+    }
+    if kind in ("idxmin", "idxmax") and inp["column"] is None and rng.random() < 0.6:
+        inp["column"] = rng.choice(["a", "b"])
+    if kind == "prod":
+        inp["a"] = [max(-2, min(2, v)) for v in inp["a"]]
+    return inp
+
+
 def generate(ctx):
     rng = ctx.rng
     for se in [1, 0, -2, "none", "false", 2, 3, 5, 8]:
@@ -319,32 +350,8 @@ def generate(ctx):
         lens = U.gen_lens(rng, n, 5) if t < 0.6 else U.gen_lens(rng, n, 12)
         yield "reduce", {"cells": cells, "lens": lens, "how": how, "skipna": rng.random() < 0.7,
                          "se": rng.choice(SES), "dtype": dtype, "known": rng.random() < 0.7}
-    kinds = ["sum", "prod", "min", "max", "mean", "var", "std", "sem", "count", "any", "all", "idxmin", "idxmax",
-             "nunique", "value_counts", "mode", "nlargest", "nsmallest", "describe", "cov", "corr", "len"]
     for _ in range(ctx.n(230, 4000)):
-        n = rng.randint(1, 14)
-        kind = rng.choice(kinds)
-        uniq = kind in ("idxmin", "idxmax", "nlargest", "nsmallest") or rng.random() < 0.5
-        inp = {
-            "a": [rng.randint(-2, 4) for _ in range(n)],
-            "b": [None if rng.random() < 0.25 else rng.choice([1.5, -2.0, 0.0, 3.25, 2.0, 0.5]) for _ in range(n)],
-            "c": [None if rng.random() < 0.2 else float(rng.randint(-3, 3)) for _ in range(n)],
-            "g": [rng.random() < 0.6 for _ in range(n)],
-            "s": [rng.choice(["x", "y", "zz"]) for _ in range(n)],
-            "index": sorted(rng.sample(range(40), n)) if uniq else sorted(rng.randint(0, 6) for _ in range(n)),
-            "kind": kind, "se": rng.choice(SES), "lens": U.gen_lens(rng, n, rng.choice([4, 4, 9])),
-            "known": rng.random() < 0.7,
-            "column": rng.choice([None, "a", "b"]) if kind not in ("cov", "corr", "describe") else rng.choice([None, "b"]) if kind == "describe" else None,
-            "params": {"skipna": rng.random() < 0.75, "axis": 1 if rng.random() < 0.15 else 0, "ddof": rng.choice([1, 1, 0]),
-                       "numeric_only": True, "n": rng.randint(1, 4), "columns": rng.choice([["a"], ["b"], ["a", "b"]]),
-                       "boolcol": rng.random() < 0.5},
-            "with_str": rng.random() < 0.2,
-        }
-        if kind in ("idxmin", "idxmax") and inp["column"] is None and rng.random() < 0.6:
-            inp["column"] = rng.choice(["a", "b"])
-        if kind == "prod":
-            inp["a"] = [max(-2, min(2, v)) for v in inp["a"]]
-        yield "api", inp
+        yield "api", gen_api(rng)
 
 
 def search(ctx):
